@@ -127,7 +127,7 @@ var forwarders = map[string]string{"VisitSubAttr": "AttrPath", "VisitListInts": 
 func acceptOf(t gt) (string, bool) {
 	switch t {
 	case tQuery:
-		return "acceptQuery lower", true
+		return "acceptQuery ops", true
 	case tPath, tOptPath:
 		return "acceptAttrPath", true
 	case tValCtx:
@@ -1273,7 +1273,7 @@ func (tr *translator) callN(x *ast.CallExpr, owner, fun string) ([]string, []gt)
 		l, _ := tr.expr(x.Args[0], tValue)
 		r, _ := tr.expr(x.Args[1], tROp)
 		v, e := tr.fresh(), tr.fresh()
-		tr.pre = append(tr.pre, "match Go.callOp lower "+id.Name+" "+l+" "+r+" recv with\n"+tr.errArm()+"| .ok ("+v+", "+e+", recv) =>\n")
+		tr.pre = append(tr.pre, "match Go.callOp ops "+id.Name+" "+l+" "+r+" recv with\n"+tr.errArm()+"| .ok ("+v+", "+e+", recv) =>\n")
 		return []string{v, e}, []gt{tBool, tErr}
 	}
 	key, recvExpr := tr.calleeKey(owner, x)
@@ -1288,8 +1288,10 @@ func (tr *translator) callN(x *ast.CallExpr, owner, fun string) ([]string, []gt)
 		fail("arity of %s", key)
 	}
 	callTxt := fi.lean
-	if fi.lean == "J_Visit" || opsProfile {
+	if opsProfile {
 		callTxt += " lower"
+	} else if fi.lean == "J_Visit" {
+		callTxt += " ops"
 	}
 	recvTerm := ""
 	if opsProfile {
@@ -2218,7 +2220,7 @@ func genVisitor(fset *token.FileSet, decls map[string]*ast.FuncDecl, declFile ma
 		}
 		sig := "def " + fi.lean
 		if fi.lean == "J_Visit" {
-			sig += " (lower : Bytes → Bytes)"
+			sig += " (ops : OpsImpl)"
 		}
 		if fi.recvT != "" {
 			sig += " (recv : " + fi.recvT.lean() + ")"
@@ -2235,7 +2237,7 @@ func genVisitor(fset *token.FileSet, decls map[string]*ast.FuncDecl, declFile ma
 	for _, a := range acceptOrder {
 		lo := ""
 		if a.lower {
-			lo = " (lower : Bytes → Bytes)"
+			lo = " (ops : OpsImpl)"
 		}
 		fmt.Fprintf(&b, "/-- `Accept` on a `%s`: one arm per `Visit…` method -/\ndef %s%s : %s → J → VM (Ret × J)\n", a.ctx, a.name, lo, a.ctx)
 		for _, m := range a.arms {
